@@ -36,6 +36,24 @@ def in_func(repo, qualname, old, new, count=1):
     return {m.relpath: text}
 
 
+def rename_local(repo, qualname, old, new):
+    """rename a local variable (whole-word occurrences of `old`) inside the source of function `qualname`"""
+    import re
+    if not repo.has_func(qualname):
+        raise NotApplicable('no function ' + qualname)
+    fi = repo.func(qualname)
+    m = fi.module
+    a, b = _func_span(fi)
+    lines = m.lines
+    seg = '\n'.join(lines[a - 1:b])
+    seg2 = re.sub(r'(?<![\w.])%s\b' % re.escape(old), new, seg)
+    if seg2 == seg:
+        raise NotApplicable('%r does not occur in %s' % (old, qualname))
+    text = '\n'.join(lines[:a - 1] + seg2.split('\n') + lines[b:])
+    ast.parse(text)
+    return {m.relpath: text}
+
+
 def in_module(repo, short, old, new, count=1):
     m = repo.module(short)
     if m.text.count(old) < 1 or (count is not None and m.text.count(old) != count):
